@@ -134,9 +134,6 @@ func VerifC07Handler() {
 	}
 	vf.Quiesce()
 
-	if !s.returned {
-		vf.Dump(vf.BlockedDesc())
-	}
 	vf.Assert(s.fired, "shutdown-was-requested")
 	vf.Assert(s.returned, "shutdown-returns")
 	vf.Assert(done, "handler-finished-when-shutdown-returned")
